@@ -1,3 +1,31 @@
-(* C12 — statements are added with the proofs; see DESIGN.md *)
+(* C12 — The outstanding-request limit counts exactly the unfinished requests. Statements only. *)
 From Coq Require Import List NArith Bool.
-From Rustun Require Import Agent.Rto Agent.Model Agent.Monitors.
+Import ListNotations.
+From Rustun Require Import Agent.Rto Agent.Model Proofs.AgentInv Proofs.AgentTrace.
+Open Scope N_scope.
+
+Theorem C12_refuse_iff : forall c now id r method app room,
+  N.of_nat (length (T c)) <= limit (cfg c) ->
+  snd (fst (step c (Send now id r method app room))) = RMaxOut <-> N.of_nat (length (T c)) = limit (cfg c).
+Proof. exact AgentInv.refuse_iff. Qed.
+Theorem C12_refusal_noop : forall c now id r method app room,
+  snd (fst (step c (Send now id r method app room))) = RMaxOut -> step c (Send now id r method app room) = (c, RMaxOut, []).
+Proof. exact AgentInv.refusal_noop. Qed.
+(* the count never exceeds the limit, in every reachable state *)
+Theorem C12_count_le_limit : forall c o,
+  N.of_nat (length (T c)) <= limit (cfg c) -> N.of_nat (length (T (fst (fst (step c o))))) <= limit (cfg (fst (fst (step c o)))).
+Proof. exact AgentInv.count_le_limit. Qed.
+(* indications never consume a slot (the state does not change at all) *)
+Theorem C12_indications_free : forall c id method app room, fst (fst (step c (Indication id method app room))) = c.
+Proof. exact AgentInv.indication_state. Qed.
+(* every final outcome delivered by a response (message, retry instruction, failure) frees exactly one slot: its own *)
+Theorem C12_final_frees_one : forall c now d w c' evs,
+  Inv c -> step c (Recv now d w) = (c', ROk None, evs) -> is_response w = true ->
+  (length (T c') + 1)%nat = length (T c) /\
+  (forall x, In x (ids_t (T c')) <-> In x (ids_t (T c)) /\ x <> m_id w) /\ In (m_id w) (ids_t (T c)).
+Proof. exact AgentInv.final_frees_one. Qed.
+Print Assumptions C12_refuse_iff.
+Print Assumptions C12_refusal_noop.
+Print Assumptions C12_count_le_limit.
+Print Assumptions C12_final_frees_one.
+(* expiry frees the slot too: C06_tmo_deadline item (3) — a request whose deadline has passed is not in the table after the call *)
